@@ -49,9 +49,40 @@ func GenC11(r *core.Rand, tier string) core.Schedule {
 	}
 	clients := r.Range(2, 4)
 	var steps []Step
-	// the follower nodes must run the table shards and hold a lease before a forwarded write can be answered
-	steps = append(steps, Step{Op: "advance", Ms: 35000})
 	n := r.Range(10, 36)
+	if r.Chance(0.3) {
+		// recovery scenario: the leader's log is compacted before the follower's workers make their first
+		// poll, so the table reaches the follower through a snapshot restore - into a recovery shard the table
+		// is switched to afterwards - while forwarded writes with long deadlines are already waiting; slow
+		// applies and lost proposals on the follower stretch the restore
+		cfg.SnapshotEntries, cfg.CompactionOverhead = 10, uint64(r.Range(0, 2))
+		if r.Chance(0.7) {
+			cfg.TOLatePermille, cfg.TOLateMaxMs = uint64(r.Range(20, 90)), []uint64{50, 700, 3000}[r.Intn(3)]
+			cfg.TOLostPermille = uint64(r.Range(0, 30))
+		}
+		for i, k := 0, r.Range(11, 22); i < k; i++ {
+			steps = append(steps, g.write(r.Intn(cfg.InitialTables), 0))
+		}
+		for i, k := 0, r.Range(1, 4); i < k; i++ {
+			st := g.write(r.Intn(cfg.InitialTables), r.Intn(cfg.Followers))
+			st.Op, st.F, st.Client = "f"+st.Op, true, r.Intn(clients)
+			st.Ms, st.Async, st.DelayMs = []int{6000, 20000}[r.Intn(2)], true, []int{0, 1, 20}[r.Intn(3)]
+			steps = append(steps, st)
+		}
+		for i, k := 0, r.Range(3, 8); i < k; i++ {
+			steps = append(steps, Step{Op: "advance", Ms: []int{211, 601, 1511}[r.Intn(3)]})
+			if r.Chance(0.4) {
+				st := g.write(r.Intn(cfg.InitialTables), r.Intn(cfg.Followers))
+				st.Op, st.F, st.Client = "f"+st.Op, true, r.Intn(clients)
+				st.Ms, st.Async = []int{1500, 6000, 20000}[r.Intn(3)], r.Chance(0.6)
+				steps = append(steps, st)
+			}
+		}
+		n += len(steps)
+	} else {
+		// the follower nodes must run the table shards and hold a lease before a forwarded write can be answered
+		steps = append(steps, Step{Op: "advance", Ms: 35000})
+	}
 	for len(steps) < n {
 		w := []int{40, 10, 22, 0, 0, 0, 0, 0}
 		if faulty {
@@ -158,6 +189,9 @@ func (r *run) execFwd(st *Step) {
 			}
 		}
 		op.end = time.Now()
+		if r.trace != nil {
+			r.trace("forwarded %s on %s answered err=%v hdr=%v", op.kind, n.name, op.err, hdr)
+		}
 		if op.err == nil && hdr != nil {
 			op.rev = hdr.Revision
 			// no fake time passes between the answer and this look (a local state-machine lookup)
